@@ -45,7 +45,7 @@ def oracle(tier, rng, deep=False):
     ev = nontriv = 0
     nrep = 30 if tier == "quick" and not deep else (90 if tier == "quick" else 200)   # quick + broken obligation: 3x the quick search
     for _ in range(nrep):
-        mode = rng.choice(["warm", "warm", "path", "refit", "refit", "sqrt_path", "mtl_refit"])
+        mode = rng.choice(["warm", "warm", "path", "refit", "refit", "sqrt_path", "mtl_refit", "mtl_path"])
         dname = rng.choice(["Quadratic", "Logistic", "Huber"])
         ctor, ykind, pgen = sl.DATAFITS[dname]
         X, y = sl.make_problem(rng, kind=ykind)
@@ -137,6 +137,43 @@ def oracle(tier, rng, deep=False):
                         break
                     a_cur = am * rng.choice([0.1, 0.3, 0.7])
                     est.alpha = a_cur
+            elif mode == "mtl_path":
+                # MultiTaskBCD: (a) solve from user-supplied (W, XW): on return the caller's XW buffer is X W + b;
+                # (b) path() over >= 2 alphas with an intercept and non-centred targets: certificate at every alpha
+                Xm, _ = sl.make_problem(rng, kind="real")
+                n_, p_ = Xm.shape
+                T = rng.randint(1, 3)
+                Ym = Xm @ np.array([[rng.gauss(0, 1) if rng.random() < 0.5 else 0.0 for _ in range(T)] for _ in range(p_)]) + rng.choice([0.0, 2.0, -3.0]) \
+                    + np.array([[rng.gauss(0, 0.2) for _ in range(T)] for _ in range(n_)])
+                fi_m = rng.random() < 0.7
+                am = float(np.max(np.linalg.norm(Xm.T @ (Ym - Ym.mean(axis=0) if fi_m else Ym), axis=1))) / n_
+                use_sp = rng.random() < 0.3
+                Xin = sparse.csc_matrix(Xm) if use_sp else np.asfortranarray(Xm)
+                solver = ss.MultiTaskBCD(tol=1e-8, fit_intercept=fi_m, max_iter=rng.choice([3, 200]), ws_strategy=rng.choice(["subdiff", "fixpoint"]))
+                W0 = np.array([[rng.gauss(0, 1) if rng.random() < 0.5 else 0.0 for _ in range(T)] for _ in range(p_ + fi_m)])
+                XW0 = np.asfortranarray(Xm @ W0[:p_] + (W0[-1] if fi_m else 0.0))
+                a_ = am * rng.choice([0.1, 0.4])
+                W, _, stop = solver.solve(Xin, np.asfortranarray(Ym), sl.cc(sd.QuadraticMultiTask()), sl.cc(sp.L2_1(a_)), W0, XW0)
+                ev += 1
+                nontriv += 1
+                W = np.asarray(W)
+                expb = Xm @ W[:p_] + (W[-1] if fi_m else 0.0)
+                inp = dict(mode=mode, X=Xm.tolist(), Y=Ym.tolist(), fit_intercept=fi_m, alpha=a_, sparse=use_sp)
+                if not np.allclose(XW0, expb, rtol=1e-8, atol=1e-9):
+                    failures.append(dict(site="buffer-not-model-fit:MultiTaskBCD", input=inp, observed=np.asarray(XW0).tolist(), expected=expb.tolist()))
+                    continue
+                alphas = np.array(sorted([am * f for f in rng.sample([0.8, 0.5, 0.2, 0.05], rng.randint(2, 3))], reverse=True))
+                res = ss.MultiTaskBCD(tol=1e-8, fit_intercept=fi_m, max_iter=300).path(Xin, np.asfortranarray(Ym), sl.cc(sd.QuadraticMultiTask()), sl.cc(sp.L2_1(1.0)), alphas=alphas)
+                coefs, stops = np.asarray(res[1]), np.asarray(res[2])
+                for t_, a in enumerate(alphas):
+                    ev += 1
+                    Wt = coefs[:, :, t_].T            # path returns (n_tasks, n_features + fit_intercept, n_alphas)
+                    if stops[t_] <= 1e-8:
+                        viol = sl.mtl_violation(Xm, Ym, Wt[:p_], Wt[-1] if fi_m else 0.0, a, fi_m)
+                        if viol > 1e-5:
+                            failures.append(dict(site="certificate-on-path:MultiTaskBCD", input=dict(inp, alphas=alphas.tolist(), t=t_), observed=dict(W=Wt.tolist(), stop=float(stops[t_])),
+                                                 expected=dict(violation=viol)))
+                            break
             elif mode == "sqrt_path":
                 # SqrtLasso.path: every point of the returned path must be stationary for ITS OWN alpha
                 from skglm.experimental.sqrt_lasso import SqrtLasso
